@@ -16,8 +16,8 @@ use serde::{Deserialize, Serialize};
 use std::io::Cursor;
 
 pub const LEVEL: &str = "fault_enumeration";
-pub const RULE_C05: &str = "faults injected into an otherwise conforming server conversation during connection setup: for every scalar field of every server message (connection confirm, connect-response incl. GCC blocks, attach-user confirm, channel-join confirms, licence) every value of 8-bit fields and the boundary values of 16/32-bit fields (field-sweep, enumerated), truncation at every byte, trailing garbage, xor corruption of 1..8 bytes and pairs of such faults (generated); plus every byte string of length <= 2 (3 thorough) at the pure parser entries gcc::read_conference_create_response, license::client_connect, per::read_* and as X.224 confirm payload. Oracle: each call returns Ok or Err: no panic, no more than 64 reads on a finished stream, no single allocation > 1 MiB + 64 n and no total > 16 MiB + 4096 n for n server bytes. Non-trivial = the faulty message differs from the conforming one and the client consumed it; distinct by hash of the case.";
-pub const RULE_C06: &str = "the client is driven by a conforming prefix into each of its six activation states, then reads one hostile frame and afterwards one valid frame. Hostile frames: every scalar field of every kind of server PDU (demand-active with capability sets, deactivate-all, synchronize, control, font map, set-error-info, unknown data PDU, fast-path bitmap / pointer / synchronize / unknown updates) set to every 8-bit value / the 16- and 32-bit boundary values (field-sweep, enumerated per state), truncations, extensions, xor corruption, double faults and free byte strings as MCS payload / fast-path payload (generated), all byte strings of length <= 2 at the share-PDU and fast-path parser entries (enumerated); every pair and triple of slow-path PDUs batched into one MCS frame in every state, and generated batches with faults; every 16-bit value in every word of every capability set of the sample demand-active (and of zeroed bodies) directly at Capability::from_capability_set, plus generated capability sets. Oracle: read returns Ok or Err: no panic, no spin, allocation bounds as for C05. Non-trivial = hostile frame differs from the conforming one; distinct by hash of the case.";
+pub const RULE_C05: &str = "faults injected into an otherwise conforming server conversation during connection setup: for every scalar field of every server message (connection confirm, connect-response incl. GCC blocks, attach-user confirm, channel-join confirms, licence) every value of 8-bit fields and the boundary values of 16/32-bit fields (field-sweep, enumerated), every negotiation structure type 0..8 x small and boundary values of its 32-bit field; consistent conversations with unusual identifier assignments (user id equal to the I/O channel or the server's id, other I/O channels); truncation at every byte, trailing garbage, xor corruption of 1..8 bytes and pairs of such faults (generated); plus every byte string of length <= 2 (3 thorough) at the pure parser entries gcc::read_conference_create_response, license::client_connect, per::read_* and as X.224 confirm payload. Oracle: each call returns Ok or Err: no panic, no more than 64 reads on a finished stream, no single allocation > 1 MiB + 64 n and no total > 16 MiB + 4096 n for n server bytes. Non-trivial = the faulty message differs from the conforming one and the client consumed it; distinct by hash of the case.";
+pub const RULE_C06: &str = "the client is driven by a conforming prefix into each of its six activation states, then reads one hostile frame and afterwards one valid frame. Hostile frames: every scalar field of every kind of server PDU (demand-active with capability sets, deactivate-all, synchronize, control, font map, set-error-info, unknown data PDU, fast-path bitmap / pointer / synchronize / unknown updates) set to every 8-bit value / the 16- and 32-bit boundary values (field-sweep, enumerated per state), truncations, extensions, xor corruption, double faults and free byte strings as MCS payload / fast-path payload (generated), all byte strings of length <= 2 at the share-PDU and fast-path parser entries (enumerated); every pair and triple of slow-path PDUs batched into one MCS frame in every state, and generated batches with faults; every 16-bit value in every word of every capability set of the sample demand-active (and of zeroed bodies) directly at Capability::from_capability_set, plus generated capability sets; every PDU kind in every state after each of nine legal variations of the activating demand-active's capability list (order reversed / rotated, subsets, unknown sets only, none); frames with 255..300 PDUs of one kind and sessions that went through 255..300 (generated: 1..300) complete reactivation cycles before the hostile frame. Oracle: read returns Ok or Err: no panic, no spin, allocation bounds as for C05. Non-trivial = hostile frame differs from the conforming one; distinct by hash of the case.";
 
 pub const B16V: [u32; 24] = [0, 1, 2, 3, 4, 5, 6, 7, 8, 0x7F, 0x80, 0xFF, 0x100, 0x3FF, 0x400, 0x7FFF, 0x8000, 0xFBFF, 0xFC16, 0xFC17, 0xFFFC, 0xFFFD, 0xFFFE, 0xFFFF];
 pub const B32V: [u32; 20] = [0, 1, 2, 3, 4, 6, 7, 8, 0xFF, 0x100, 0xFFFF, 0x1_0000, 0x7FFF_FFFF, 0x8000_0000, 0x8000_0001, 0xFFFF_FFFB, 0xFFFF_FFFC, 0xFFFF_FFFD, 0xFFFF_FFFE, 0xFFFF_FFFF];
